@@ -1,12 +1,14 @@
 (* C13 — delete, insert, append and repeat change exactly the addressed positions.
-   PROVED: trimming removes leading and trailing zeros only (decomposition zeros ++ trimmed ++ zeros with non-zero
-   ends) and is restricted to rank 1; deleting refuses any index at or beyond the length and removes exactly one
-   element per distinct valid position; flat append chains the element lists (C11_append_flat).
+   PROVED: deleting keeps every element whose position is not listed, in the original order (keep l idx), for any
+   index list (duplicates and any order allowed) — flat form (C13_delete_flat) and along an axis of an array of any
+   rank, lane by lane (C13_delete_axis); the result length is the old one minus the number of distinct listed
+   positions; any index at or beyond the length is refused whatever else the list holds; the index list delete
+   works with is strictly descending with the same members (C13_prepare); trimming removes leading and trailing
+   zeros only and is restricted to rank 1; flat append chains the element lists (C11_append_flat).
    NOT YET PROVED (exhaustively checked by the correspondence run incl. insert-then-delete round trips executed on
-   the implementation): 'keeps all other elements in order' for delete, the placement statement for insert, and the
-   per-index repeat statement along an axis. *)
+   the implementation): the placement statement for insert and the per-index repeat statement along an axis. *)
 From Coq Require Import Sorted.
-From ArrRs Require Import Index Axis Edit Edit_proofs.
+From ArrRs Require Import Index Axis Axis_proofs Broadcast_proofs Reduce Along_proofs Edit Edit_proofs Delete_proofs.
 
 Theorem C13_trim : forall (A : Type) (p : A -> bool) l,
   let t := drop_while p (rev (drop_while p (rev l))) in
@@ -31,9 +33,37 @@ Theorem C13_delete_count_partial : forall (A : Type) (idx : list nat) (l : list 
   length (fold_left (fun es i => remove_nth es i) idx l) = length l - length idx.
 Proof. exact @fold_remove_length. Qed.
 
+(* what is kept: the elements at the positions not listed, in order *)
+Theorem C13_keep_def : forall (A : Type) k (x : A) t ks,
+  keep_from k (x :: t) ks = if existsb (Nat.eqb k) ks then keep_from (S k) t ks else x :: keep_from (S k) t ks.
+Proof. reflexivity. Qed.
+
+Theorem C13_prepare : forall idx,
+  StronglySorted gt (prepare_indices idx) /\ (forall y, In y (prepare_indices idx) <-> In y idx).
+Proof. exact prepare_indices_spec. Qed.
+
+Theorem C13_delete_flat : forall (T : Type) (d : T) (a : arr T) idx, (forall i, In i idx -> i < len a) ->
+  delete d a idx None = Ok (mk (keep (elems a) idx) [length (keep (elems a) idx)]) /\
+  length (keep (elems a) idx) = len a - length (prepare_indices idx).
+Proof. exact @delete_flat_spec. Qed.
+
+Theorem C13_delete_flat_refuses : forall (T : Type) (d : T) (a : arr T) idx i,
+  In i idx -> len a <= i -> delete d a idx None = Err EOob.
+Proof. exact @delete_flat_oob. Qed.
+
+Theorem C13_delete_axis : forall (T : Type) (d : T) (a : arr T) idx ax,
+  wf a -> pos_shape (shape a) -> ax < ndim a -> (Z.of_nat (ndim a) < two64)%Z ->
+  (forall i, In i idx -> i < nth ax (shape a) 0) ->
+  exists R, delete d a idx (Some ax) = Ok R /\ wf R /\
+    shape R = upd (shape a) ax (nth ax (shape a) 0 - length (prepare_indices idx)) /\
+    forall c, in_range (shape R) c ->
+      get d R c = nth (nth ax c 0) (keep (elems (lane d a ax (remove_nth c ax))) idx) d.
+Proof. exact @delete_axis_spec. Qed.
+
 Example C13_nonvacuous :
   delete 0%Z (mk [0;1;2;3;4;5]%Z [6]) [4;1;4] None = Ok (mk [0;2;3;5]%Z [4]) /\
   insert_flat 0%Z (mk [0;1;2;3]%Z [4]) [1;1;4] (mk [10;11;12]%Z [3]) = Ok (mk [0;10;11;1;2;3;12]%Z [7]) /\
   repeat_arr 0%Z (mk [0;1;2;3;4;5]%Z [2;3]) [2;0;1] (Some 1) = Ok (mk [0;0;2;3;3;5]%Z [2;3]) /\
-  trim_zeros (Z.eqb 0) (mk [0;0;1;0;2;0]%Z [6]) = Ok (mk [1;0;2]%Z [3]).
+  trim_zeros (Z.eqb 0) (mk [0;0;1;0;2;0]%Z [6]) = Ok (mk [1;0;2]%Z [3]) /\
+  keep [10;11;12;13;14]%Z [3;1;3] = [10;12;14]%Z /\ prepare_indices [3;1;3] = [3;1].
 Proof. repeat split; vm_compute; reflexivity. Qed.
